@@ -16,3 +16,7 @@
 ; the notation a chord-degree token is written in, as astconv's degreeType reads it (0 unknown, 1 note name, 2 number):
 ; names the function's graph; constrained only through degreeType's own contract
 (declare-fun degKind (String) Int)
+; strconv.ParseUint(s, 10, 64): whether s is read as an unsigned decimal numeral below 2^64, and the number read
+; (a function of the text alone; that leading zeros do not change the number is the library's, not crd's)
+(declare-fun parse10_ok (String) Bool)
+(declare-fun parse10_val (String) Int)
